@@ -7,10 +7,11 @@
 (* VERIF_TRACE once (into TLC register 50, see V3Score on why registers),  *)
 (* consumes exactly one event per step and NEVER blocks: an event that     *)
 (* contradicts the property layer is reported with its position as         *)
-(*     <<"VERDICT", position, kind, detail>>                               *)
+(*     "VERDICT|<position>|<kind and detail>"                              *)
 (* on TLC's output and the orchestrator turns it into a VIOLATION (or      *)
 (* matches it against the known findings).  Acceptance = all events        *)
-(* consumed: the run must end with Len(Trace) + 1 distinct states.         *)
+(* consumed: the run must end with Len(Trace) + 2 distinct states and the  *)
+(* number of parsed verdict lines must equal the printed BADCOUNT.         *)
 (***************************************************************************)
 EXTENDS Integers, Sequences, TLC, Json, IOUtils
 
@@ -19,7 +20,24 @@ Trace == TLCGet(50)
 Pid == IOEnv.VERIF_PID
 
 Has(ev, f) == f \in DOMAIN ev
-Report(pos, kind, detail) == PrintT(<<"VERDICT", pos, kind, detail>>)
+
+\* l = position of the next event, nbad = number of verdicts reported so far
+VARIABLES l, nbad
+
+\* One line per verdict, as a single string (TLC wraps long tuples over several lines).
+Report(pos, kind) == PrintT("VERDICT|" \o ToString(pos) \o "|" \o kind)
+
+TraceInit == l = 1 /\ nbad = 0
+\* consume one event whose verdict is v
+Step(v) == /\ IF v = "ok" THEN TRUE ELSE Report(l, v)
+           /\ l' = l + 1
+           /\ nbad' = nbad + (IF v = "ok" THEN 0 ELSE 1)
+\* after the last event: publish the number of verdicts so that the orchestrator can
+\* verify it parsed every one of them
+Finish == /\ l = Len(Trace) + 1
+          /\ PrintT("BADCOUNT|" \o ToString(nbad))
+          /\ l' = l + 1
+          /\ UNCHANGED nbad
 
 \* decimal rendering of a score given in tenths: 98 -> "9.8", 100 -> "10", 0 -> "0", -3 -> "-0.3"
 TenthStr(t) ==
